@@ -9,6 +9,8 @@ mod v14;
 pub mod corpus_c03;
 pub mod dec;
 pub mod c03_gen;
+pub mod corpus_c04;
+pub mod c04_gen;
 #[cfg(kani)]
 mod c06;
 #[cfg(kani)]
